@@ -159,8 +159,10 @@ pub fn check_vector(vec: &J) -> J {
                 let ev = &vec["expect"]["e"]["v"];
                 let internal = ev["t"] == "ierr";
                 if internal {
-                    if *user {
-                        return fail(format!("expected an internal error, got user error {v}"), &text, obs);
+                    // the text of an internal message is not specified; it may have been caught and re-raised
+                    let _ = user;
+                    if v["t"] != "str" {
+                        return fail(format!("expected an internal error (a message), got error {v}"), &text, obs);
                     }
                 } else if !enc::agrees(ev, v) {
                     return fail(format!("expected error {ev}, got error {v}"), &text, obs);
